@@ -222,42 +222,74 @@ def copyRange (range : Option Bytes) (fileLen : Nat) : Option (Nat × Nat) :=
 
 /-! ## `list_objects_v2` helpers -/
 
-/-- `str::split(pat)` for a non-empty pattern: leftmost non-overlapping matches.
-    `skip` = bytes of a matched delimiter still to be dropped; `cur` = current piece, reversed. -/
-def splitOnAux (d : Bytes) : Bytes → Nat → Bytes → List Bytes
-  | [], _, cur => [cur.reverse]
-  | _ :: cs, skip + 1, cur => splitOnAux d cs skip cur
-  | c :: cs, 0, cur =>
-    if d.isPrefixOf (c :: cs) then cur.reverse :: splitOnAux d cs (d.length - 1) []
-    else splitOnAux d cs 0 (c :: cur)
+/-- `str::trim_start_matches('/')` -/
+def trimSlashes : Bytes → Bytes
+  | [] => []
+  | c :: cs => if c = slash then trimSlashes cs else c :: cs
 
-def splitOn (s d : Bytes) : List Bytes := splitOnAux d s 0 []
+/-- `str::find(pat)` for a non-empty pattern: the first position at which it occurs -/
+def strFind (d : Bytes) : Bytes → Option Nat
+  | [] => none
+  | c :: cs => if d.isPrefixOf (c :: cs) then some 0 else (strFind d cs).map (· + 1)
 
-/-- `PathBuf::push` on Unix -/
-def pathPush (buf p : Bytes) : Bytes :=
-  if p.head? = some slash then p
-  else if buf ≠ [] ∧ buf.getLast? ≠ some slash then buf ++ [slash] ++ p
-  else buf ++ p
-
-/-- `prefix.split(delimiter).collect::<PathBuf>()`, displayed -/
-def prefixPath (pfx delim : Bytes) : Bytes := (splitOn pfx delim).foldl pathPush []
+/-- `common_prefix(key, prefix, delimiter)`: `key.strip_prefix(prefix)?`, `rest.split_once(delimiter)?`, then
+    prefix + what precedes the first delimiter + delimiter -/
+def commonPrefix (p d k : Bytes) : Option Bytes :=
+  if p.isPrefixOf k then
+    let rest := k.drop p.length
+    match strFind d rest with
+    | none => none
+    | some i => some (p ++ rest.take i ++ d)
+  else none
 
 def Tree.files (t : Tree) : List (Path × Bytes) :=
   t.filterMap fun e => match e.2 with
     | .file c => some (e.1, c)
     | .dir => none
 
-/-- the listing the code builds: normalised key text ↦ size, filtered by prefix, sorted, cut at `start_after` -/
-def listKeys (t : Tree) (pfx delim startAfter : Option Bytes) : List (Bytes × Nat) :=
-  let d := delim.getD [slash]
-  let cand := t.files.filter fun e =>
-    match pfx with
-    | none => true
-    | some p => (prefixPath p d).isPrefixOf (joinWith [slash] e.1)
-  let objs := sortByKey (cand.map fun e => (joinWith d e.1, e.2.length))
+/-- the keys the walk collects — path components joined by `/` — that start with the prefix (a plain string prefix),
+    with their sizes, sorted, cut at `start_after` -/
+def listKeys (t : Tree) (pfx : Bytes) (startAfter : Option Bytes) : List (Bytes × Nat) :=
+  let cand := t.files.filter fun e => pfx.isPrefixOf (joinWith [slash] e.1)
+  let objs := sortByKey (cand.map fun e => (joinWith [slash] e.1, e.2.length))
   match startAfter with
   | none => objs
   | some m => objs.dropWhile fun o => bytesLe o.1 m
+
+/-- `ListEntry`: a key with its size, or the common prefix of a run of keys -/
+inductive Listed where
+  | object (k : Bytes) (size : Nat)
+  | commonPrefix (p : Bytes)
+  deriving DecidableEq, Repr
+
+/-- the roll-up loop: one entry per key, or per run of consecutive keys that share a common prefix. `last` = the common
+    prefix pushed last when the last entry is one (`entries.last_mut()`). -/
+def rollUp (p : Bytes) (d : Option Bytes) : Option Bytes → List (Bytes × Nat) → List Listed
+  | _, [] => []
+  | last, (k, sz) :: rest =>
+    match d.bind fun d => commonPrefix p d k with
+    | none => .object k sz :: rollUp p d none rest
+    | some g => if last = some g then rollUp p d last rest else .commonPrefix g :: rollUp p d (some g) rest
+
+def Listed.object? : Listed → Option (Bytes × Nat)
+  | .object k sz => some (k, sz)
+  | .commonPrefix _ => none
+
+def Listed.commonPrefix? : Listed → Option Bytes
+  | .commonPrefix g => some g
+  | .object _ _ => none
+
+/-- what `list_objects_v2` answers for a bucket directory (fe72881; `list_objects` maps onto it, `marker` being `start_after`):
+    leading slashes of the prefix are dropped, an empty delimiter is no delimiter, `max_keys.unwrap_or(1000).max(0)` entries
+    are kept (`truncate`), `is_truncated` says whether there were more, `key_count` counts keys and common prefixes -/
+def listAnswer (t : Tree) (pfx delim startAfter : Option Bytes) (maxKeys : Option Int) : Resp :=
+  let p := trimSlashes (pfx.getD [])
+  let d := delim.filter fun d => d ≠ []
+  let entries := rollUp p d none (listKeys t p startAfter)
+  let limit := (maxKeys.getD 1000).toNat
+  let shown := entries.take limit
+  .listed (shown.filterMap Listed.object?) shown.length (decide (entries.length > limit))
+    (shown.filterMap Listed.commonPrefix?)
 
 /-! ## `complete_multipart_upload`: the listed parts -/
 
@@ -514,28 +546,20 @@ def step (H : Hashes) (dirLen : Nat) (s : State) : Op → State × Resp
                     | some x =>
                       if sideTooLong db dk false then (s3, .err .InternalError)
                       else ({ s3 with infos := alInsert (db, dk) x s3.infos }, .copied (some (etagOf H c)))
-  | .listObjectsV2 b pfx delim startAfter _maxKeys =>
+  | .listObjectsV2 b pfx delim startAfter maxKeys =>
     match bucketDir b with
     | none => (s, .err .InvalidBucketName)
     | some bd =>
       match s.tree bd with
       | none => (s, .err .NoSuchBucket)
-      | some t =>
-        if delim = some [] then (s, .unmodelled)
-        else
-          let items := listKeys t pfx delim startAfter
-          (s, .listed items items.length false [])
-  | .listObjects b pfx delim marker _maxKeys =>
+      | some t => (s, listAnswer t pfx delim startAfter maxKeys)
+  | .listObjects b pfx delim marker maxKeys =>
     match bucketDir b with
     | none => (s, .err .InvalidBucketName)
     | some bd =>
       match s.tree bd with
       | none => (s, .err .NoSuchBucket)
-      | some t =>
-        if delim = some [] then (s, .unmodelled)
-        else
-          let items := listKeys t pfx delim marker
-          (s, .listed items items.length false [])
+      | some t => (s, listAnswer t pfx delim marker maxKeys)
   | .createMultipartUpload who b k md =>
     -- 1d0f501: `get_object_path(bucket, key)?`, then the bucket must exist
     match objPath b k with
